@@ -11,7 +11,7 @@ for d in sorted(glob.glob("/verif/seeded/*/")):
     if isinstance(s0, list):
         s0 = ",".join(s0)
     later = ""
-    for key in ("after_strengthening", "on_repaired_tree"):
+    for key in ("after_strengthening", "on_repaired_tree", "final_tree"):
         if "caught_by_check_" + key in m:
             a = m[key].get("check", {})
             sg = a.get("signatures", [])
